@@ -8,7 +8,10 @@ use serde_json::{json, Value};
 use std::collections::{BTreeMap, BTreeSet};
 use std::time::{Duration, Instant};
 
-pub const VERIF_DIR: &str = "/verif";
+/// root of the verification tree (evidence/, replays/, known_findings.json); MC_VERIF_DIR overrides for scratch runs
+pub fn verif_dir() -> String {
+    std::env::var("MC_VERIF_DIR").unwrap_or_else(|_| "/verif".into())
+}
 
 #[derive(Clone, Copy, PartialEq, Eq, Debug)]
 pub enum Tier {
@@ -379,7 +382,7 @@ pub struct Finding {
     pub witness: Option<Value>,
 }
 pub fn load_findings() -> Vec<Finding> {
-    let p = format!("{VERIF_DIR}/known_findings.json");
+    let p = format!("{}/known_findings.json", verif_dir());
     match std::fs::read_to_string(&p) {
         Ok(s) => {
             let v: Value = serde_json::from_str(&s).expect("known_findings.json is not valid JSON");
@@ -410,7 +413,7 @@ pub fn parent_main(prop: &dyn Prop, tier: Tier, seed: u64) -> i32 {
     let ncores = std::thread::available_parallelism().map(|n| n.get()).unwrap_or(4);
     let n = if meta.workers == 0 { ncores } else { meta.workers.min(ncores) };
     let exe = std::env::current_exe().unwrap();
-    let tmpdir = format!("{VERIF_DIR}/target-mc/tmp");
+    let tmpdir = format!("{}/target-mc/tmp", verif_dir());
     std::fs::create_dir_all(&tmpdir).ok();
     let mut children = vec![];
     for i in 0..n {
@@ -512,8 +515,8 @@ pub fn finish(meta: &Meta, tier: Tier, seed: u64, total: Summary, wall: f64, nwo
         "wall_s": (wall * 100.0).round() / 100.0,
         "violations": unknown.len(),
     });
-    std::fs::create_dir_all(format!("{VERIF_DIR}/evidence")).ok();
-    let evp = format!("{VERIF_DIR}/evidence/{}.json", meta.id);
+    std::fs::create_dir_all(format!("{}/evidence", verif_dir())).ok();
+    let evp = format!("{}/evidence/{}.json", verif_dir(), meta.id);
     std::fs::write(&evp, serde_json::to_string_pretty(&ev).unwrap() + "\n").expect("write evidence");
 
     for l in &known_lines {
@@ -544,9 +547,9 @@ pub fn finish(meta: &Meta, tier: Tier, seed: u64, total: Summary, wall: f64, nwo
     if unknown.is_empty() {
         return 0;
     }
-    std::fs::create_dir_all(format!("{VERIF_DIR}/replays")).ok();
+    std::fs::create_dir_all(format!("{}/replays", verif_dir())).ok();
     for (i, v) in unknown.iter().enumerate() {
-        let path = format!("{VERIF_DIR}/replays/{}-{}-{}.json", meta.id, tier.name(), i);
+        let path = format!("{}/replays/{}-{}-{}.json", verif_dir(), meta.id, tier.name(), i);
         let r = json!({"property": meta.id, "clause": v.clause, "disc": v.disc, "count": v.count,
             "detail": v.detail, "case": v.case});
         std::fs::write(&path, serde_json::to_string_pretty(&r).unwrap()).expect("write replay");
